@@ -263,7 +263,11 @@ impl MCOptimiser {
             // we want 50% of the steps which can improve the performance to be accepted.
             // There is a limit to the usefulness though and 1e-4 has been good.
             if step_ratio > 1e-4 {
-                step_ratio *= self.inner_steps as f64 / (loop_rejections as f64 + 1.);
+                // The step can shrink, though never grows beyond the configured maximum
+                step_ratio = f64::min(
+                    1.,
+                    step_ratio * self.inner_steps as f64 / (loop_rejections as f64 + 1.),
+                );
             }
         }
         debug!(
